@@ -240,6 +240,10 @@ pub enum TermsK {
   OffsetMax,
   /// cap 1 amount 7, open
   CapOne,
+  /// offset end u64::MAX (open for ever; block + offset must not overflow)
+  OffsetEndMax,
+  /// height end u64::MAX and height start 0
+  HeightEndMax,
 }
 
 #[derive(Clone, Copy, PartialEq, Debug)]
@@ -385,6 +389,8 @@ pub const TEMPLATES: &[Template] = &[
   tpl!("etch-terms-zero-amount", false, etch: etch(Name::High, Commit::T6, None, TermsK::ZeroAmount)),
   tpl!("etch-terms-mixed", false, etch: etch(Name::High, Commit::T6, Some(3), TermsK::Mixed)),
   tpl!("etch-terms-offset-max", false, etch: etch(Name::High, Commit::T6, None, TermsK::OffsetMax)),
+  tpl!("etch-terms-offset-end-max", false, etch: etch(Name::High, Commit::T6, None, TermsK::OffsetEndMax)),
+  tpl!("etch-terms-height-end-max", false, etch: etch(Name::High, Commit::T6, None, TermsK::HeightEndMax)),
   tpl!("etch-cap-one", true, etch: etch(Name::High, Commit::T6, Some(10), TermsK::CapOne)),
   tpl!("etch-premine-max", false, etch: etch(Name::High, Commit::T6, Some(u128::MAX), TermsK::None)),
   tpl!("etch-all-fields", false, etch: Some(Etch { name: Name::High, commit: Commit::T6, premine: Some(77), terms: TermsK::Open, extras: true })),
@@ -518,6 +524,8 @@ impl Builder<'_> {
         TermsK::Mixed => vec![(T_AMOUNT, 10), (T_CAP, 9), (T_HSTART, (height + 2).into()), (T_HEND, (height + 4).into()), (T_OSTART, 1), (T_OEND, 3)],
         TermsK::OffsetMax => vec![(T_AMOUNT, 10), (T_CAP, 9), (T_OSTART, u64::MAX.into())],
         TermsK::CapOne => vec![(T_AMOUNT, 7), (T_CAP, 1)],
+        TermsK::OffsetEndMax => vec![(T_AMOUNT, 10), (T_CAP, 9), (T_OEND, u64::MAX.into())],
+        TermsK::HeightEndMax => vec![(T_AMOUNT, 10), (T_CAP, 9), (T_HSTART, 0), (T_HEND, u64::MAX.into())],
       };
       if e.terms != TermsK::None {
         flags |= F_TERMS;
@@ -1059,6 +1067,11 @@ pub const DENSE: &[(&str, DenseSpec)] = &[
     (&["etch-commit-immature-then-mature", "etch-commit-nontaproot-then-taproot", "etch-commit-mature-then-immature"], "full"),
     (&["xfer-split-even-opreturn-first", "xfer-r1-edict"], "full"),
     (&["xfer-split-seven-each-opreturn-middle", "xfer-merge-two"], "full"),
+  ]),
+  ("open-ended-windows", &[
+    (&["etch-terms-offset-end-max", "etch-terms-height-end-max"], "full"),
+    (&["mint-r0", "mint-r1"], "mint-r0"),
+    (&["mint-r1", "mint-r0", "mint-r0-spending-r0"], "full"),
   ]),
   ("windows", &[
     (&["etch-abs-window-next", "etch-rel-window-next", "etch-terms-mixed"], "full"),
